@@ -1,19 +1,29 @@
 #!/bin/bash
-# usage: tools/seeded_matrix.sh [quick|thorough]  -- applies every patch under seeded/, seeded_informed/ and seeded_wave3/ to
-# /repo in turn, runs the check of the property the change was aimed at, restores /repo, prints one line each.
+# usage: tools/seeded_matrix.sh [quick|thorough]
+# Applies every patch under seeded/, seeded_informed/, seeded_wave3/ and seeded_wave4/ in turn to the repository
+# (/repo, or the scratch copy $VP_RUN_REPO when started through `vp run --with-repo`), runs the check of the
+# property the change was aimed at, restores the repository, and prints one line per change.
 TIER=${1:-quick}
-cd /verif
-if ! git -C /repo diff --quiet; then echo "/repo has uncommitted changes; refusing" >&2; exit 2; fi
-restore() { git -C /repo checkout -- . ; }
+ROOT="$(cd "$(dirname "$0")/.." && pwd)"
+cd "$ROOT"
+REPO=/repo
+if [ -n "${VP_RUN_REPO:-}" ]; then
+  REPO="$VP_RUN_REPO"
+  sed -i "s|path = \"/repo\"|path = \"$VP_RUN_REPO\"|" harness/Cargo.toml
+  cp "$VP_RUN_REPO/Cargo.lock" harness/Cargo.lock 2>/dev/null || cp /repo/Cargo.lock harness/Cargo.lock
+fi
+if ! git -C "$REPO" diff --quiet; then echo "$REPO has uncommitted changes; refusing" >&2; exit 2; fi
+restore() { git -C "$REPO" checkout -- . ; }
 trap restore EXIT
-for d in seeded/* seeded_informed/* seeded_wave3/*; do
+for d in seeded/* seeded_informed/* seeded_wave3/* seeded_wave4/*; do
   [ -f "$d/patch.diff" ] || continue
   name=$(basename "$d"); id=$(echo "$name" | grep -oE "C[0-9]{2}" | head -1)
-  git -C /repo apply "/verif/$d/patch.diff" || { echo "$name: PATCH-DOES-NOT-APPLY"; continue; }
+  git -C "$REPO" apply "$ROOT/$d/patch.diff" || { echo "$name: PATCH-DOES-NOT-APPLY"; continue; }
   t0=$(date +%s)
   out=$(VERIF_SEED=${VERIF_SEED:-1} ./check "$id" $TIER 2>&1); code=$?
   t1=$(date +%s)
   if [ $code -eq 1 ] && echo "$out" | grep -q "^VIOLATION property=$id"; then r=CAUGHT; elif [ $code -eq 0 ]; then r=missed; else r="exit=$code"; fi
-  echo "$name: $id $TIER $r ($((t1-t0))s) $(echo "$out" | grep -E "^failure" | head -1 | cut -c1-140)"
+  echo "$d: $id $TIER $r ($((t1-t0))s) $(echo "$out" | grep -E "^failure" | head -1 | cut -c1-140)"
   restore
 done
+echo MATRIX-DONE
